@@ -75,3 +75,42 @@ Proof. destruct o as [d f v|d f h|d f v|d f h]; cbn [qop_wf qop_code qop_d qop_m
 Theorem op_to_var_spec (o : qop Qc_OF) : qop_wf Qc_OF o ->
   op_to_var [qop_code o; Z.of_nat (qop_d o); Z.of_nat (qop_m o); flag_code (qop_flag o)] (qop_stacked Qc_OF o) = Ok (qop_to_var Qc_OF o).
 Proof. intros W. unfold op_to_var. now rewrite fl_flag_code, (obj_of_stacked_stacked o W). Qed.
+
+(* ------------------------------------------------------------------ generate_from_var / calc_gradient wrappers: the template rebuilt from NO data
+   has the configuration (type, d, flag, number of outcomes) of the object, and the model functions read nothing else of the template *)
+Lemma qop_from_var_shape (sdf : nat -> Qc) (o o' : qop Qc_OF) var : qop_same_shape Qc_OF o o' ->
+  qop_from_var Qc_OF sdf o var = qop_from_var Qc_OF sdf o' var.
+Proof. destruct o, o'; cbn; try contradiction; intros H; decompose [and] H; subst; try reflexivity. now rewrite H3. Qed.
+Lemma qop_gradient_shape (o o' : qop Qc_OF) i : qop_same_shape Qc_OF o o' -> qop_gradient Qc_OF o i = qop_gradient Qc_OF o' i.
+Proof. destruct o, o'; cbn; try contradiction; intros H; decompose [and] H; subst; try reflexivity; now rewrite H3. Qed.
+
+Lemma template_shape (o : qop Qc_OF) :
+  qop_same_shape Qc_OF o (obj_of_stacked (qop_code o) (Z.of_nat (qop_d o)) (Z.of_nat (qop_m o)) (qop_flag o) []).
+Proof. destruct o as [d f v|d f h|d f v|d f h]; unfold obj_of_stacked; cbn [qop_code qop_d qop_m qop_flag Z.eqb Pos.eqb qop_same_shape];
+  rewrite ?nn_of_nat, ?Nat2Z.id; repeat split; try reflexivity; now rewrite ?map_length, chunk_length. Qed.
+
+Theorem op_from_var_spec (o : qop Qc_OF) (sd : Qc) (var : list Qc) :
+  op_from_var [qop_code o; Z.of_nat (qop_d o); Z.of_nat (qop_m o); flag_code (qop_flag o)] (sd :: var) =
+  match qop_from_var Qc_OF (fun _ => sd) o var with Some o' => Ok (qop_stacked Qc_OF o') | None => Err 1 end.
+Proof. unfold op_from_var. rewrite fl_flag_code. rewrite <- (qop_from_var_shape (fun _ => sd) o _ var (template_shape o)).
+  destruct (qop_from_var Qc_OF (fun _ : nat => sd) o var); reflexivity. Qed.
+
+Theorem op_gradient_spec (o : qop Qc_OF) (i : Z) (qs : list Qc) :
+  op_gradient [qop_code o; Z.of_nat (qop_d o); Z.of_nat (qop_m o); flag_code (qop_flag o); i] qs =
+  match qop_gradient Qc_OF o i with Some g => Ok g | None => Err 2 end.
+Proof. unfold op_gradient. rewrite fl_flag_code, !Nat2Z.id.
+  destruct o as [d f v|d f h|d f v|d f h]; cbn [qop_code qop_d qop_m qop_flag Z.eqb Pos.eqb qop_gradient]; now destruct (_ : option (list Qc)). Qed.
+
+(* ------------------------------------------------------------------ the static stacked <-> var wrappers (zs = [type code; d; flag]) *)
+Theorem op_var_to_stacked_spec (o : qop Qc_OF) (sd : Qc) (var : list Qc) :
+  op_var_to_stacked [qop_code o; Z.of_nat (qop_d o); flag_code (qop_flag o)] (sd :: var) =
+  match qop_var_to_stacked Qc_OF (fun _ => sd) o var with Some l => Ok l | None => Err 1 end.
+Proof. unfold op_var_to_stacked. rewrite fl_flag_code, Nat2Z.id.
+  destruct o as [d f v|d f h|d f v|d f h]; cbn [qop_code qop_d qop_flag Z.eqb Pos.eqb qop_var_to_stacked out_opt]; try reflexivity;
+  try (now destruct (povm_var_to_stacked Qc_OF d sd f var)). Qed.
+Theorem op_stacked_to_var_spec (o : qop Qc_OF) (sd : Qc) (st : list Qc) :
+  op_stacked_to_var [qop_code o; Z.of_nat (qop_d o); flag_code (qop_flag o)] (sd :: st) =
+  match qop_stacked_to_var Qc_OF (fun _ => sd) o st with Some l => Ok l | None => Err 1 end.
+Proof. unfold op_stacked_to_var. rewrite fl_flag_code, Nat2Z.id.
+  destruct o as [d f v|d f h|d f v|d f h]; cbn [qop_code qop_d qop_flag Z.eqb Pos.eqb qop_stacked_to_var out_opt]; try reflexivity;
+  try (now destruct (povm_stacked_to_var Qc_OF d sd f st)). Qed.
